@@ -554,6 +554,33 @@ Fixpoint scoped_body (D : list string) (b : list (string * prog)) : Prop :=
 Fixpoint scoped_all (D : list string) (ps : list prog) : Prop :=
   match ps with [] => True | p :: r => scoped D p /\ scoped_all (rev (defs p) ++ D) r end.
 
+(* no definition contains, at any depth, another definition of its own id *)
+Fixpoint nested_free (p : prog) : Prop :=
+  match p with
+  | PDef id _ _ body =>
+      ~ In id (defs_body body) /\
+      (fix go (b : list (string * prog)) : Prop :=
+         match b with [] => True | (_, c) :: r => nested_free c /\ go r end) body
+  | _ => True
+  end.
+Fixpoint nested_free_body (b : list (string * prog)) : Prop :=
+  match b with [] => True | (_, c) :: r => nested_free c /\ nested_free_body r end.
+
+(* the only exceptions the steps of p raise by themselves are parse errors (or, inside a
+   from_json, KeyErrors, which from_json_safe turns into parse errors) *)
+Fixpoint only_parse (inside : bool) (p : prog) : Prop :=
+  match p with
+  | PRef _ => True
+  | PLook _ => inside = true
+  | PBad e => parse_error e = true \/ (inside = true /\ exists k, e = EKeyError k)
+  | PDef _ pre _ body =>
+      match pre with None => True | Some e => parse_error e = true end /\
+      (fix go (b : list (string * prog)) : Prop :=
+         match b with [] => True | (_, c) :: r => only_parse true c /\ go r end) body
+  end.
+Fixpoint only_parse_body (b : list (string * prog)) : Prop :=
+  match b with [] => True | (_, c) :: r => only_parse true c /\ only_parse_body r end.
+
 (* what p denotes under a registry R *)
 Definition denote (R : string -> option nat) (p : prog) : option nat :=
   match p with
